@@ -66,7 +66,7 @@ SPEC = dict(
     outside=[
         'certificate validation, the TLS handshake itself, direct-TLS (LegacySSL / xmpps SRV) connection set-up, DNS look-ups, reconnect paths of _q_socketDisconnected (next SRV address, see-other-host redirect) - they open a NEW connection, for which INV is re-established by the disconnected + start steps',
         'SASL / SASL2 / FAST mechanism internals (C05/C06): reaching authenticate() at all on an unencrypted link is the violation',
-        'data handed to the stream by the application or by extension managers of QXmppClient (handlers connected to elementReceived / iqReceived, QXmppClient::send...): the encoded program is QXmppOutgoingClient alone',
+        'replies sent by client extensions (QXmppClient managers connected to elementReceived / iqReceived, e.g. version, ping, disco, entity-time responders) to IQs or other elements received BEFORE encryption are NOT covered - only the fallback reply of QXmppOutgoingClient itself (handleStanza: feature-not-implemented error) is; likewise anything the application hands to the stream itself (QXmppClient::send..., sendIq): the encoded program is QXmppOutgoingClient alone',
         'inbound <presence/> and <message/> elements before encryption (QXmppPresence / QXmppMessage parsing; they only emit a signal), the payload of <stream:error/> (conditions, see-other-host: only setError / socket disconnect follow), children of inbound IQs',
         'configurations other than TLSRequired (TLSEnabled may legitimately continue without TLS), states in which the link is already encrypted',
         'strings longer than the stated bounds; more than one SASL mechanism / bind2 feature (content is irrelevant for the branches taken)',
